@@ -11,6 +11,7 @@ PROP_MODULES = {
     'C19': ['contracts.builders', 'contracts.shared_grid', 'contracts.c05_compact'],
     'C06': ['contracts.builders', 'contracts.shared_grid', 'contracts.c05_compact', 'contracts.c06_atomic'],
     'C09': ['contracts.builders', 'contracts.shared_grid', 'contracts.c03_grid', 'contracts.c04_meta', 'contracts.c05_compact', 'contracts.c16_limits', 'contracts.c09_paths'],
+    'C18': ['contracts.builders', 'contracts.c18_errors'],
     'C12': ['contracts.builders', 'contracts.shared_grid', 'contracts.c03_grid', 'contracts.c04_meta', 'contracts.c08_creator', 'contracts.c11_seed', 'contracts.c13_expiry', 'contracts.c12_cleanup'],
     'C11': ['contracts.builders', 'contracts.shared_grid', 'contracts.c03_grid', 'contracts.c04_meta', 'contracts.c11_seed'],
     'C15': ['contracts.builders', 'contracts.c15_async'],
@@ -42,6 +43,16 @@ NOT_APPLICABLE = {
 }
 
 MANIFEST_META = {
+    'C18': dict(
+        text='Narrow slice, proved on the real code: in XML/OWS exception handlers the template variable `exception` is exactly '
+             'html.escape(request_error.msg) and the response body is the rendered template; PlainExceptionHandler (raw message) '
+             'always answers text/plain; in MapProxyApp.__call__ (non-debug) any exception from a service handler becomes the '
+             'constant \'internal error\'/500 body, unknown paths get \'not found\'/404/text/plain, and the welcome link is built '
+             'only from escape_html(script_url). escape_html\'s character-level postcondition is a BOUNDED check (replace chains '
+             'are undecided in z3 and cvc5).',
+        note='the universal claim "returns a complete response without raising for any request whatsoever" (whole-program '
+             'exception freedom across dynamic dispatch, templates, PIL decoders), image decodability, XML well-formedness of '
+             'rendered templates, Response.__call__ Content-length and Server.handle are NOT covered'),
     'C09': dict(
         text='Proof that the paths built from numbers stay below their root: compact bundle file = cache_dir/L<z>/R<r>C<c> (two '
              'safe segments, string lemma), lock file = lock_dir/<cache id>-x-y-z.lck (one segment; injective for non-negative '
